@@ -33,6 +33,7 @@ def analyse(ctx, replace=None, only=None):
     R = ctx.R
     P = ctx.program([PQ, "source/array_list.c"], "ship", replace=replace)
     queue_rules(R, P)
+    static_queue_takes_handles(R, P)  # (the task scheduler, which shares queue_rules, uses a dynamic queue)
     from rules.C09 import mem_swap_cover
     mem_swap_cover(R, P)
     # BOUND on the handle-array zero fill and on the sliced swap (shared with C09)
@@ -171,6 +172,26 @@ def set_at_length(R, P):
                 ok, det = False, "length becomes %r for index %r (old length %r)" % (L1, idx, L0)
     R.check(ok and n >= 1, "LOCKSTEP", "set_at:length-covers-the-index", "%s()" % f.name, "after a successful set_at the length is index + 1 or unchanged (%d states)" % n,
             "aws_array_list_set_at leaves the list shorter than index + 1 (%s): the lazily created handle array stays shorter than the element array, so remove / clear do not reach the handle they must invalidate" % det)
+
+
+def static_queue_takes_handles(R, P):
+    """STATIC/handles: `a fixed-capacity queue ... is otherwise identical`: a push with a handle is refused only for lack of
+    room.  Any failure raised in aws_priority_queue_push_ref under a test of the container's allocator (no allocator = a
+    queue set up with aws_priority_queue_init_static) refuses handles on such queues whatever room is left."""
+    f = P.fn("aws_priority_queue_push_ref")
+    if f is None:
+        return
+    dom = dominators(f)
+    hits = []
+    for e in f.calls("aws_raise_error"):
+        for c_, p_, b_ in RU.guards(f, e, dom):
+            g = RU.cmp_norm(f, c_, p_)
+            if g and g[1] == "==" and (g[2] is None or f.is_const(RU.uncast(f, g[2])) == 0):
+                l_ = RU.uncast(f, g[0])
+                if l_ is not None and l_["k"] == "member" and l_["f"] == "alloc" and "container" in f.show(l_):
+                    hits.append(e)
+    R.check(not hits, "STATIC", "static-queue-takes-handles", where(f, hits[0]) if hits else "%s()" % f.name, "a push with a handle is not refused because the queue has no allocator",
+            "aws_priority_queue_push_ref raises %s when the queue has no allocator: a queue set up with aws_priority_queue_init_static refuses every push that carries a handle, however much room it has" % (f.show(RU.arg(f, hits[0].node, 0)) if hits else ""))
 
 
 def queue_rules(R, P):
